@@ -410,6 +410,9 @@ def run(ctx):
   # user supplied tableaux: every zero/non-zero pattern of 2- and 3-stage tableaux + named pairs
   rt = ctx.tlc('ImexTableaux', 'ImexTableaux_quick.cfg' if q else 'ImexTableaux.cfg')
   ctx.require_actions(rt, ['ExecF', 'ExecG', 'ExecGinv', 'ExecLin'])
+  if not q:      # four stages: explicit and implicit halves varied separately (9,216 patterns)
+    rt4 = ctx.tlc('ImexTableaux', 'ImexTableaux_n4.cfg', tag='imex_n4', timeout=7200)
+    rt.cases.extend(c for c in rt4.cases if c['id'] == 'pattern')
   if len(rt.cases) < 100:
     raise common.MachineryError('too few tableau cases exported')
   tab_res = common.parallel_map('c06', 'replay_tableau', rt.cases, tag='tab', outdir=os.path.join(ctx.out, 'par'))
